@@ -79,6 +79,7 @@ type recPub struct {
 	consumed *message.Message
 	closed   int
 	byUUID   map[string]uuidScript
+	panics   bool
 }
 
 func snap(m *message.Message, consumed *message.Message) msgSnap {
@@ -103,6 +104,9 @@ func (p *recPub) Publish(topic string, msgs ...*message.Message) error {
 		c.msgs = append(c.msgs, snap(m, consumed))
 	}
 	p.calls = append(p.calls, c)
+	if p.panics {
+		panic("destination publisher panicked") // after the call has been recorded
+	}
 	if fail {
 		return errors.New("destination down")
 	}
@@ -140,7 +144,14 @@ func (p *recPub) callsFor(uuid string) []pubCall {
 func (p *recPub) Close() error { p.mu.Lock(); p.closed++; p.mu.Unlock(); return nil }
 func (p *recPub) reset(consumed *message.Message, fail bool) {
 	p.mu.Lock()
-	p.calls, p.fail, p.consumed, p.byUUID = nil, fail, consumed, nil
+	p.calls, p.fail, p.consumed, p.byUUID, p.panics = nil, fail, consumed, nil, false
+	p.mu.Unlock()
+}
+
+// setPanic: the next Publish calls panic instead of returning (until the next reset)
+func (p *recPub) setPanic(on bool) {
+	p.mu.Lock()
+	p.panics = on
 	p.mu.Unlock()
 }
 func (p *recPub) take() []pubCall {
@@ -279,7 +290,10 @@ func renderPubs(calls []pubCall, withSame bool) string {
 	return s
 }
 
-func dest(fail bool) string {
+func dest(fail bool, pan ...bool) string {
+	if len(pan) > 0 && pan[0] {
+		return "panic"
+	}
 	if fail {
 		return "fail"
 	}
@@ -404,6 +418,7 @@ type rqCase struct {
 	tgOK          bool
 	topic         string
 	fail          bool
+	pan           bool // the destination publisher panics
 	msg           msgDesc
 	// kind rqp: GeneratePublishTopic is a function of the message it is shown
 	policy string            // "" (scripted answer) | budget:<k>:<work>:<dead> | meta:<key>
@@ -442,13 +457,13 @@ func (c *rqCase) req() string {
 		if f[0] == "budget" {
 			pol = "budget:" + f[1] + ":" + wh.HexS(f[2]) + ":" + wh.HexS(f[3])
 		}
-		return "rqp " + bit(c.delay) + " " + bit(c.cancel) + " " + pol + " " + dest(c.fail) + " " + c.msg.fields()
+		return "rqp " + bit(c.delay) + " " + bit(c.cancel) + " " + pol + " " + dest(c.fail, c.pan) + " " + c.msg.fields()
 	}
 	tg := "err"
 	if c.tgOK {
 		tg = "ok:" + wh.HexS(c.topic)
 	}
-	return "rq " + bit(c.delay) + " " + bit(c.cancel) + " " + tg + " " + dest(c.fail) + " " + c.msg.fields()
+	return "rq " + bit(c.delay) + " " + bit(c.cancel) + " " + tg + " " + dest(c.fail, c.pan) + " " + c.msg.fields()
 }
 
 type rqEnv struct {
@@ -538,6 +553,7 @@ func (e *rqEnv) run(c *rqCase) string {
 	e.tgOther = false
 	e.mu.Unlock()
 	e.pub.reset(m, c.fail)
+	e.pub.setPanic(c.pan)
 	s := feed(e.sub.ch("failed"), m)
 	e.mu.Lock()
 	other := e.tgOther
@@ -613,6 +629,7 @@ func rqCases(out *wh.Out, rng *wh.Rng, nRandom, nBursts int) {
 				c.fail = i >= failFrom // destination fails from the k-th message on
 			} else {
 				c.fail = rng.Intn(3) == 0
+				c.pan = !c.fail && rng.Intn(5) == 0 // the destination panics now and then, and accepts afterwards
 			}
 			switch rng.Intn(4) {
 			case 0:
@@ -690,7 +707,7 @@ func rqCases(out *wh.Out, rng *wh.Rng, nRandom, nBursts int) {
 			return
 		}
 		np++
-		c := &rqCase{policy: policy, msg: rndMsg(rng, rndBytes), fail: np%3 == 0}
+		c := &rqCase{policy: policy, msg: rndMsg(rng, rndBytes), fail: np%3 == 0, pan: np%7 == 1}
 		delete(c.msg.meta, "_watermill_requeuer_retries")
 		if hasPrior {
 			c.msg.meta["_watermill_requeuer_retries"] = prior
@@ -928,10 +945,11 @@ func (e *fwdEnv) close() {
 }
 
 // run feeds a message with the given payload; the consumed message carries its own uuid/metadata, which must not leak.
-func (e *fwdEnv) run(payload []byte, fail bool, rng *wh.Rng) string {
+func (e *fwdEnv) run(payload []byte, fail bool, rng *wh.Rng, pan ...bool) string {
 	m := message.NewMessage("consumed-"+rndBytes(rng, 4), payload)
 	m.Metadata.Set("transport-header", "must-not-leak")
 	e.pub.reset(m, fail)
+	e.pub.setPanic(len(pan) > 0 && pan[0])
 	s := feed(e.sub.ch(e.topic), m)
 	return renderPubs(e.pub.take(), false) + " S:" + s
 }
@@ -968,8 +986,12 @@ func fwdCases(out *wh.Out, rng *wh.Rng, rounds int) {
 				raw, d := rawEnvelope(class, rng)
 				n++
 				fail := n%failEvery == 0 // the destination fails on every k-th message
-				obs := env.run(raw, fail, rng)
-				out.Case("fwd "+bit(ack)+" "+d.token()+" "+dest(fail)+" "+class+" "+wh.HexS(cfgTopic), obs)
+				pan := !fail && n%7 == 3  // … and panics on some others (it accepts again afterwards)
+				obs := env.run(raw, fail, rng, pan)
+				if pan {
+					out.Count("fwd.dest_panic")
+				}
+				out.Case("fwd "+bit(ack)+" "+d.token()+" "+dest(fail, pan)+" "+class+" "+wh.HexS(cfgTopic), obs)
 				out.Count("fwd.class." + class)
 				if !d.bad && d.dest == env.topic {
 					out.Count("fwd.dest_is_forwarder_topic")
@@ -1345,10 +1367,12 @@ func faninCases(out *wh.Out, rng *wh.Rng, perEnv int) {
 			idx := rng.Intn(nsrc)
 			d := rndMsg(rng, rndBytes)
 			fail := i >= failFrom && (i-failFrom)%3 != 2
+			pan := !fail && i%6 == 4
 			m := d.build()
 			pub.reset(m, fail)
+			pub.setPanic(pan)
 			s := feed(sub.ch(srcs[idx]), m)
-			out.Case("fanin "+hexList(srcs)+" "+wh.HexS(target)+" "+strconv.Itoa(idx)+" "+dest(fail)+" "+d.fields(), renderPubs(pub.take(), true)+" S:"+s)
+			out.Case("fanin "+hexList(srcs)+" "+wh.HexS(target)+" "+strconv.Itoa(idx)+" "+dest(fail, pan)+" "+d.fields(), renderPubs(pub.take(), true)+" S:"+s)
 			out.Count("fanin.sources" + strconv.Itoa(nsrc))
 			if fail {
 				out.Count("fanin.dest_fail")
@@ -1502,7 +1526,7 @@ func replay(out *wh.Out, line string) {
 	case "utf8":
 		out.Case(line, bit(utf8.ValidString(unhex(f[1]))))
 	case "rq":
-		c := &rqCase{delay: f[1] == "1", cancel: f[2] == "1", tgOK: strings.HasPrefix(f[3], "ok:"), fail: f[4] == "fail", msg: parseMsgFields(f[5:8])}
+		c := &rqCase{delay: f[1] == "1", cancel: f[2] == "1", tgOK: strings.HasPrefix(f[3], "ok:"), fail: f[4] == "fail", pan: f[4] == "panic", msg: parseMsgFields(f[5:8])}
 		if c.tgOK {
 			c.topic = unhex(f[3][3:])
 		}
@@ -1531,7 +1555,7 @@ func replay(out *wh.Out, line string) {
 		if err != nil {
 			fatal("forwarder setup", err)
 		}
-		out.Case(line, env.run(raw, f[3] == "fail", wh.NewRng(1)))
+		out.Case(line, env.run(raw, f[3] == "fail", wh.NewRng(1), f[3] == "panic"))
 		env.close()
 	case "e2e":
 		env := newE2E(f[1], unhex(f[2]), f[3] == "1")
@@ -1546,7 +1570,7 @@ func replay(out *wh.Out, line string) {
 		}
 		out.Case(line, runFpubr(unhex(f[1]), unhex(f[2]), unhex(f[3]), ds, f[5] == "fail", f[6] == "fail"))
 	case "rqp":
-		c := &rqCase{delay: f[1] == "1", cancel: f[2] == "1", fail: f[4] == "fail", msg: parseMsgFields(f[5:8])}
+		c := &rqCase{delay: f[1] == "1", cancel: f[2] == "1", fail: f[4] == "fail", pan: f[4] == "panic", msg: parseMsgFields(f[5:8])}
 		pf := strings.Split(f[3], ":")
 		if pf[0] == "budget" {
 			c.policy = "budget:" + pf[1] + ":" + unhex(pf[2]) + ":" + unhex(pf[3])
@@ -1574,6 +1598,7 @@ func replay(out *wh.Out, line string) {
 		<-fi.Running()
 		m := parseMsgFields(f[5:8]).build()
 		pub.reset(m, f[4] == "fail")
+		pub.setPanic(f[4] == "panic")
 		s := feed(sub.ch(srcs[idx]), m)
 		out.Case(line, renderPubs(pub.take(), true)+" S:"+s)
 		_ = fi.Close()
